@@ -1151,8 +1151,17 @@ def x12(e: Engine, rep: Report):
     rep.functions.add(ctx.func.qname)
     root = ctx.func
     params = [p for p in root.params if p != 'self']
+    m = e.p.modules.get('slimta.envelope')
+    # module-level `make = partial(BytesGenerator, policy=...)`
+    partials = {t.id for st in m.tree.body if isinstance(st, ast.Assign) and
+                isinstance(st.value, ast.Call) and
+                ast.unparse(st.value.func).rpartition('.')[2] == 'partial'
+                and st.value.args and ast.unparse(
+                    st.value.args[0]).rpartition('.')[2] in (
+                    'BytesGenerator', 'Generator')
+                for t in st.targets if isinstance(t, ast.Name)}
     gens = [c for c in g.nodes if c.kind == 'call' and
-            e.call_name(c) in ('BytesGenerator', 'Generator')]
+            e.call_name(c) in {'BytesGenerator', 'Generator'} | partials]
     if not gens:
         rep.unknown('X12', root.qname, 'generator settings are fixed',
                     'no BytesGenerator(...) call is visible from flatten()',
